@@ -2515,7 +2515,10 @@ impl Connection {
                 src_cid: rem_cid, ..
             } => {
                 if self.side.is_server() {
-                    return Err(TransportError::PROTOCOL_VIOLATION("client sent Retry").into());
+                    // Retry packets carry no authentication a server could check, so anyone able
+                    // to spoof the client's address could otherwise kill the handshake.
+                    debug!("discarding Retry packet received by a server");
+                    return Ok(());
                 }
 
                 if self.total_authed_packets > 1
